@@ -18,6 +18,7 @@ import (
 	walletmanagerhandler "github.com/attestantio/dirk/services/api/grpc/handlers/walletmanager"
 	"github.com/attestantio/dirk/services/api/grpc/interceptors"
 	"github.com/attestantio/dirk/services/checker"
+	"github.com/attestantio/dirk/services/fetcher"
 	staticchecker "github.com/attestantio/dirk/services/checker/static"
 	memfetcher "github.com/attestantio/dirk/services/fetcher/mem"
 	standardlister "github.com/attestantio/dirk/services/lister/standard"
@@ -120,11 +121,29 @@ func NewInstance(s *Sched, name string, cfg InstCfg) (*Instance, error) {
 		return fail(fmt.Errorf("checker: %w", err))
 	}
 	inst.Checker = &CheckerWrap{Service: checkerSvc, plan: cfg.Plan, pop: cfg.Pop}
-	fetcherSvc, err := memfetcher.New(ctx, memfetcher.WithStores([]e2wtypes.Store{cfg.Pop.Store}), memfetcher.WithEncryptor(cfg.Pop.Encryptor))
-	if err != nil {
-		return fail(err)
+	var fetcherSvc fetcher.Service
+	if cfg.Pop.Shared && cfg.Pop.sharedFetcher != nil {
+		fetcherSvc = cfg.Pop.sharedFetcher
+	} else {
+		mf, err := memfetcher.New(context.Background(), memfetcher.WithStores([]e2wtypes.Store{cfg.Pop.Store}), memfetcher.WithEncryptor(cfg.Pop.Encryptor))
+		if err != nil {
+			return fail(err)
+		}
+		fetcherSvc = mf
+		inst.Fetcher = mf
+		if cfg.Pop.Shared {
+			for _, a := range cfg.Pop.Accts {
+				_, acc, err := mf.FetchAccount(ctx, a.Path)
+				if err != nil {
+					return fail(err)
+				}
+				if err := acc.(e2wtypes.AccountLocker).Unlock(ctx, []byte("pass")); err != nil {
+					return fail(err)
+				}
+			}
+			cfg.Pop.sharedFetcher = mf
+		}
 	}
-	inst.Fetcher = fetcherSvc
 	inst.FetcherW = &FetcherWrap{Service: fetcherSvc, s: s, inst: inst, plan: cfg.Plan, pop: cfg.Pop, wrap: map[e2wtypes.Account]e2wtypes.Account{}}
 	unlockerSvc, err := localunlocker.New(ctx, localunlocker.WithWalletPassphrases([]string{"pass"}), localunlocker.WithAccountPassphrases([]string{"pass"}))
 	if err != nil {
